@@ -12,12 +12,12 @@
     literal := nil | true | false | integer | decimal | "..." | KEYS[i] | ARGV[i] | r[i]
              | (0/0) | (1/0) | (-1/0) | { literal, ... }
 
-    Modelled: the marshalling of the arguments of redis.call (execute_unified_redis_command),
-    the blocked-command list, dispatch into Model/Exec.v, resp_frame_to_lua_value and
-    lua_value_to_resp, call aborts / pcall answers nil, KEYS and ARGV through
-    from_utf8_lossy, the EVAL handler's argument checks, and - for the sandbox probes
-    [return <global> == nil] - the set of globals of an mlua Lua 5.1 state after
-    create_lua_context. *)
+    Modelled (after the repairs 38e52a4 2ecc978 754e125 31c22b9 a6ba253): the marshalling of the
+    arguments of redis.call (execute_unified_redis_command: strings as bytes, numbers printed), the
+    blocked-command list, lazy expiry and dispatch into Model/Exec.v, resp_frame_to_lua_value and
+    lua_value_to_resp, call aborts with the command's own error / pcall answers the table {err = m},
+    KEYS and ARGV as bytes, the EVAL handler's argument checks, and - for the sandbox probes
+    [return <global> == nil] - the set of globals of an mlua Lua 5.1 state after create_lua_context. *)
 From Ferrous Require Import Base.Bytes Generated Model.Resp Model.Types Model.Utf8 Model.Strings Model.Lists Model.Exec.
 Open Scope Z_scope.
 
